@@ -575,7 +575,7 @@ func (env *evalEnv) evalCall(x *ECall) cval {
 		k := env.eval(x.Args[1])
 		ks, vs, _ := env.mapSorts(m)
 		h := env.heapGet(mapInName(ks, vs), "(Array Int (Array "+ks+" Bool))")
-		return cval{t: "(select (select " + h + " " + m.t + ") " + k.t + ")", sort: "Bool"}
+		return cval{t: "(and (not (= " + m.t + " 0)) (select (select " + h + " " + m.t + ") " + k.t + "))", sort: "Bool"}
 	case "lookup":
 		argn(2)
 		m := env.eval(x.Args[0])
@@ -646,6 +646,13 @@ func (env *evalEnv) evalCall(x *ECall) cval {
 			evalFail("callres index out of range")
 		}
 		return cval{t: rs[i], sort: srt, typ: typ}
+	case "substr":
+		argn(3)
+		sv := env.eval(x.Args[0])
+		a := env.eval(x.Args[1])
+		b := env.eval(x.Args[2])
+		fx.fnx().ensureSubstr()
+		return cval{t: "(str.sub " + sv.t + " " + a.t + " " + b.t + ")", sort: "Str", typ: types.Typ[types.String]}
 	case "ptr":
 		argn(1)
 		v := env.eval(x.Args[0])
